@@ -7,7 +7,6 @@ mod cmd_recon;
 mod cmd_lfdbt;
 mod cmd_adapters;
 mod cmd_orig;
-#[cfg(feature = "matrix")]
 mod cmd_session;
 
 fn main() {
@@ -21,7 +20,6 @@ fn main() {
         "lfdbt" => cmd_lfdbt::run(),
         "adapters" => cmd_adapters::run(),
         "orig" => cmd_orig::run(),
-        #[cfg(feature = "matrix")]
         "session" => cmd_session::run(),
         "variant" => {
             println!(
